@@ -171,7 +171,7 @@ func scenC18(r *Run) {
 		sub = r.Index
 	}
 	r.Param("mode", mode)
-	sim := r.StartSim(verifsim.Config{IdleCap: time.Hour, StepCap: 300000}, "rpc/plugins/loadbalance")
+	sim := r.StartSim(verifsim.Config{IdleCap: time.Hour, StepCap: 300000, GapChoices: smallGaps, PCTSteps: 300}, "rpc/plugins/loadbalance")
 	vecs := c18vectors()
 	fail := func(class, f string, a ...interface{}) { r.Fail("C18:"+class, f, a...) }
 	switch mode {
